@@ -484,25 +484,39 @@ fn fam_wrapped(ctx: &CaseCtx, cov: &mut Cov) -> CaseOut {
 fn fam_max_cost(ctx: &CaseCtx, cov: &mut Cov) -> CaseOut {
     let mut out = CaseOut::default();
     let mut rng = ctx.rng();
-    let slot = *rng.pick(&[41u32, 47]);
-    let mut prog = crate::gen::prog::floor_program(&mut rng, slot);
-    let with_marker = rng.chance(1, 2);
-    if with_marker {
-        prog.push(Sym::Eos);
-    }
-    let props = Props::new(0, 0, 0);
-    let (payload, table, hist) = match encode_program(&prog, props) {
-        Ok(x) => x,
-        Err(e) => {
-            out.harness_error(format!("{:?}", e));
-            return out;
+    // whether the symbol straddles 19 or only 18 input bytes depends on where the range coder
+    // happens to stand: construct again (new literals, other slot) until it is 19
+    let mut built = None;
+    for attempt in 0..8 {
+        let slot = *rng.pick(&[41u32, 47]);
+        let mut prog = crate::gen::prog::floor_program(&mut rng, slot);
+        let with_marker = rng.chance(1, 2);
+        if with_marker {
+            prog.push(Sym::Eos);
         }
-    };
-    let mut file = sut::lzma_header(props.byte(), 1 << 25, Some(if with_marker { None } else { Some(hist.len() as u64) }));
-    let hdr = file.len();
-    file.extend_from_slice(&payload);
-    let boundaries = boundaries_of(hdr, &table);
-    let inp = Input { file, options: sut::default_options(), desc: format!("floor program for distance slot {}: {} symbols, {} output bytes, marker {}", slot, prog.len(), hist.len(), with_marker), kind: 5, boundaries: boundaries.clone() };
+        let props = Props::new(0, 0, 0);
+        let (payload, table, hist) = match encode_program(&prog, props) {
+            Ok(x) => x,
+            Err(e) => {
+                out.harness_error(format!("{:?}", e));
+                return out;
+            }
+        };
+        let mut file = sut::lzma_header(props.byte(), 1 << 25, Some(if with_marker { None } else { Some(hist.len() as u64) }));
+        let hdr = file.len();
+        file.extend_from_slice(&payload);
+        let boundaries = boundaries_of(hdr, &table);
+        let ei = prog.len() - 4 - with_marker as usize;
+        let cost = boundaries[ei] - boundaries[ei - 1];
+        let inp = Input { file, options: sut::default_options(), desc: format!("floor program for distance slot {}: {} symbols, {} output bytes, marker {}", slot, prog.len(), hist.len(), with_marker), kind: 5, boundaries: boundaries.clone() };
+        let done = cost >= 19 || attempt == 7;
+        built = Some((prog, with_marker, boundaries, inp));
+        if done {
+            cov.max("max_cost_construction_attempts", attempt + 1);
+            break;
+        }
+    }
+    let (prog, with_marker, boundaries, inp) = built.unwrap();
     let os = oneshot(&inp);
     note_input(cov, &inp, &os);
     if !os.verdict.is_ok() {
